@@ -43,7 +43,8 @@ def cond_value(p, text):
 
 
 def _calls(p, attr):
-    return [ev[1] for ev in p.events if ev[0] == 'call' and isinstance(ev[1].func, ast.Attribute) and ev[1].func.attr == attr]
+    return [ev[1] for ev in p.events if ev[0] == 'call' and isinstance(ev[1], ast.Call) and
+            isinstance(ev[1].func, ast.Attribute) and ev[1].func.attr == attr]
 
 
 def check_registered_index(ctx, ck, rule='R-KIND.registered-index'):
